@@ -6,7 +6,7 @@ import OdxVerif.Proofs.CompReject2Described
     `A_UTF8STRING`, `A_UNICODE2STRING` (UCS-2), BCD (packed / unpacked) — with or without PHYSICAL-DEFAULT-VALUE, at every
     nesting depth of structures (with or without BYTE-SIZE) ∘ static / dynamic-length / END-OF-PDU fields (items with or without
     BYTE-SIZE) ∘ multiplexers, plus LEADING-LENGTH-INFO-TYPE leaves (over `A_BYTEFIELD` and the three string base types) and (in last position, ended by the end of the PDU)
-    MIN-MAX-LENGTH-TYPE leaves over `A_BYTEFIELD` (class `DescribedP2`,
+    MIN-MAX-LENGTH-TYPE leaves over `A_BYTEFIELD` and the string base types (class `DescribedP2`,
     `Proofs/CompReject2Described.lean`).  One rejection lemma covers all kinds: `Obj.rejectsW` (`Proofs/CompReject2Leaf.lean`).
 
     **Hypothesis `wfAtoms`** (explicit, decidable, a condition on the INPUT that every Python value meets): the bytes of every
@@ -488,6 +488,56 @@ example : ∃ cursor, decodeMessage none (PDescs.toParams mDesc) [0x2E, 7, 0, 1,
       rw [henc]; rfl
     have h4 : (encodeMessage none (PDescs.toParams mDesc) (mMk (.atom (.bytes [0, 1, 2]))) none true).toOption
         = some ([0x2E, 7, 0, 1, 2], 0) := by decide +kernel
+    rw [h2] at h4
+    simp only [Option.some.injEq, Prod.mk.injEq] at h4
+    obtain ⟨hp, hw⟩ := h4
+    subst hp
+    cases hkvs
+    obtain ⟨cursor, hdec⟩ := hrt hw (fun _ => by decide +kernel)
+    exact ⟨cursor, hdec⟩
+
+/-! ## non-vacuity, MIN-MAX-LENGTH-TYPE over a string base type ended by the end of the PDU
+    request = [ sid; a; ms : MIN-MAX-LENGTH-TYPE over A_UNICODE2STRING, MIN-LENGTH 2, MAX-LENGTH 6 (bytes), TERMINATION ZERO — last ] -/
+def msSh : MMStrShape := { name := "ms", bytePos := none, bt := .unicode2, hl := true, minLen := 2, maxLen := some 6, term := .zero }
+def msDesc : List PDesc := [PDesc.ofObjConst ⟨"sid", none, none, none, true, 8, .uint32⟩ (.int 0x2E), pu8 "a", PDesc.ofMinMaxLastStr msSh]
+def msMk (x : PVal) : PVal := .dict [("a", .atom (.int 7)), ("ms", x)]
+
+theorem msDesc_described : ∀ p ∈ msDesc, DescribedP2 p := by
+  intro g hg
+  simp only [msDesc, List.mem_cons, List.mem_nil_iff, or_false] at hg
+  rcases hg with rfl | rfl | rfl
+  · exact DescribedP2.const _ _ (by simp [Obj.ok, Obj.encOk, Obj.sizeOk]) (by simp [Obj.inRange])
+  · exact described_pu8' _
+  · exact DescribedP2.minmaxLastStr msSh (Or.inr (Or.inr rfl))
+
+theorem msDesc_names : PDescs.namesOk msDesc ∧ PDescs.eopLast msDesc := by
+  refine ⟨?_, ⟨rfl, rfl, trivial⟩⟩
+  simp [PDescs.namesOk, msDesc, PDesc.name, Param.name, PDesc.ofObjConst, Obj.toConstParam, PDesc.ofMinMaxLastStr, MMStrShape.leaf,
+    MMLeaf.toParam, msSh, pu8, PDesc.ofObjValue, Obj.toParam]
+
+/-- accepted: "Ω"; "ΩĀA" = `03 A9 01 00 00 41` (the two zero bytes are not at an aligned position: no terminator); "ĀA" = `01 00 00 41`
+    likewise.  Rejected with `EncodeError`: "Ω\0" (terminator at the aligned position 2 ≥ MIN-LENGTH), four characters (8 > 6 bytes),
+    the empty string (0 < 2 bytes), a lone surrogate, bytes -/
+example : [msMk (.atom (.str [0x3A9])), msMk (.atom (.str [0x3A9, 0x100, 0x41])), msMk (.atom (.str [0x100, 0x41]))].map (fun p =>
+      (p.wfAtoms && p.typedForP msDesc && p.acceptedByP msDesc, (encodeMessage none (PDescs.toParams msDesc) p none true).toOption)) =
+    [(true, some ([0x2E, 7, 0x03, 0xA9], 0)), (true, some ([0x2E, 7, 0x03, 0xA9, 1, 0, 0, 0x41], 0)),
+     (true, some ([0x2E, 7, 1, 0, 0, 0x41], 0))] := by decide +kernel
+example : [msMk (.atom (.str [0x3A9, 0])), msMk (.atom (.str [1, 2, 3, 4])), msMk (.atom (.str [])), msMk (.atom (.str [0xD800])),
+      msMk (.atom (.bytes [1, 2]))].all (fun p =>
+      p.wfAtoms && p.typedForP msDesc && p.acceptedByP msDesc == false && decide (p.needFor msDesc ≤ modelFuel) &&
+      errClass (encodeMessage none (PDescs.toParams msDesc) p none true) == some .encode) = true := by decide +kernel
+/-- the theorem applies -/
+example : ∃ cursor, decodeMessage none (PDescs.toParams msDesc) [0x2E, 7, 0x03, 0xA9, 1, 0, 0, 0x41] true =
+    .ok (.dict (PDescs.complete msDesc [("a", .atom (.int 7)), ("ms", .atom (.str [0x3A9, 0x100, 0x41]))]), cursor) := by
+  rcases C04_nested msDesc msDesc_described msDesc_names.1 msDesc_names.2 (msMk (.atom (.str [0x3A9, 0x100, 0x41]))) (by decide +kernel) none
+    (by decide +kernel) (by decide +kernel) with ⟨e, he, _⟩ | ⟨kvs, pdu, w, hkvs, _, henc, hrt⟩
+  · have : (encodeMessage none (PDescs.toParams msDesc) (msMk (.atom (.str [0x3A9, 0x100, 0x41]))) none true).toOption = none := by
+      rw [he]; rfl
+    exact absurd this (by decide +kernel)
+  · have h2 : (encodeMessage none (PDescs.toParams msDesc) (msMk (.atom (.str [0x3A9, 0x100, 0x41]))) none true).toOption = some (pdu, w) := by
+      rw [henc]; rfl
+    have h4 : (encodeMessage none (PDescs.toParams msDesc) (msMk (.atom (.str [0x3A9, 0x100, 0x41]))) none true).toOption
+        = some ([0x2E, 7, 0x03, 0xA9, 1, 0, 0, 0x41], 0) := by decide +kernel
     rw [h2] at h4
     simp only [Option.some.injEq, Prod.mk.injEq] at h4
     obtain ⟨hp, hw⟩ := h4
